@@ -43,7 +43,7 @@ package core
 //@ requires [nonnil] bc != nil
 //@ requires [nonnil-blocks] forall k: int :: { chain[k] } 0 <= k && k < len(chain) ==> chain[k] != nil && chain[k].header != nil
 //@ modifies all, c11SideOK, c11Seal, c11Body, c11ExecBlk, c11ExecSt, c11ExecRes, c11StateBlk, c11StateSt, c11UnknownParentState, c11Parent,
-//@          c11DBCanon, c11DBHead, c11DBHeadHeader, c11DBPuts, c11DBBody, c11DBHeader, c11Written, c11StateCommitted, c11TrieFail, c11Lookups, c11BatchOK, c11LastIns, c11LastIdx, c11NC
+//@          c11DBCanon, c11DBHead, c11DBHeadHeader, c11DBPuts, c11DBBody, c11DBHeader, c11Written, c11StateCommitted, c11TrieFail, c11Lookups, c11BatchOK, c11LastIns, c11LastIdx, c11NC, c11Reorged, c11Missing
 // every iteration starts with nothing known about its block
 //@ ghost before call (*BlockChain).isInterrupted: c11Seal := nil
 //@ ghost before call (*BlockChain).isInterrupted: c11Body := nil
@@ -117,16 +117,19 @@ package core
 //@ ghost var c11TrieFail: bool             // a TrieDB().Commit (flush to disk) returned an error
 //@ ghost var c11Lookups: *types.Block      // the tx lookup entries of this block were put into the batch
 //@ ghost var c11BatchOK: bool              // the batch (receipts + lookups) was written
+//@ ghost var c11Reorged: *types.Block     // reorg(current head, this block) returned nil
 
 // thin frames of what it calls (ASSUMED: `nobody` / `trusted`; heap havocked, chain-index ghosts untouched)
+// CurrentBlock(): `bc.currentBlock.Load().(*types.Block)` — the in-memory head is the content of the atomic cell (verified).
 //@ func (*BlockChain).CurrentBlock props C11
-//@ nobody
+//@ requires [nonnil] bc != nil
 //@ pure
+//@ ensures [memory-head] result == unbox(bc.currentBlock.v, *types.Block)
 
 
 //@ func (*BlockChain).WriteBlockWithState props C11
 //@ requires [nonnil] bc != nil && bc.hc != nil && block != nil && block.header != nil && block.header.Number != nil && state != nil
-//@ modifies all, c11DBCanon, c11DBHead, c11DBHeadHeader, c11DBPuts, c11DBBody, c11DBHeader, c11Written, c11StateCommitted, c11TrieFail, c11Lookups, c11BatchOK, c11LastIns, c11LastIdx, c11NC
+//@ modifies all, c11DBCanon, c11DBHead, c11DBHeadHeader, c11DBPuts, c11DBBody, c11DBHeader, c11Written, c11StateCommitted, c11TrieFail, c11Lookups, c11BatchOK, c11LastIns, c11LastIdx, c11NC, c11Reorged, c11Missing
 //@ ghost at entry: c11Written := nil
 //@ ghost at entry: c11StateCommitted := false
 //@ ghost at entry: c11TrieFail := false
@@ -137,15 +140,22 @@ package core
 //@ ghost after call (*trie.Database).Commit: c11TrieFail := c11TrieFail || ret != nil
 //@ ghost after call core/rawdb.WriteTxLookupEntries: c11Lookups := a1
 //@ ghost after call (youdb.Batch).Write: c11BatchOK := ret == nil
+//@ ghost at entry: c11Reorged := nil
+//@ ghost after call (*BlockChain).reorg: c11Reorged := if ret == nil then a2 else nil
 //@ assert before call (*core/state.StateDB).Commit: [commit-the-given-state] a0 == state
 //@ assert before call (*trie.Database).Commit: [flush-a-root-of-this-state] a1 == root || a1 == valRoot || a1 == stakingRoot
 // (the error of TrieDB().Commit used to be logged only: repaired, see /verif/known_findings.json "fixed")
 //@ loop #1 invariant [no-flush-error-swallowed] !c11TrieFail
-//@ loop #1 invariant [block-stored-and-state-committed] c11Written == block && c11StateCommitted && c11Lookups == nil && !c11BatchOK
+//@ loop #1 invariant [block-stored-and-state-committed] c11Written == block && c11StateCommitted && c11Lookups == nil && !c11BatchOK && c11Reorged == nil
 //@ assert before call core/rawdb.WriteTxLookupEntries: [lookups-of-this-block-into-the-batch] a0 == batch && a1 == block
 //@ assert before call (youdb.Batch).Write: [the-batch-with-the-lookups] recv == batch && c11Lookups == block
 //@ assert before call (*BlockChain).reorg: [block-and-state-before-reorg] a2 == block && c11Written == block && c11StateCommitted
 //@ assert before call (*BlockChain).reorg: [state-durable-before-reorg] !c11TrieFail
+// the head moves only by linear extension (the block's parent IS the current head block) or after reorg(current head, block)
+// succeeded — stated over the content of the head cell, not over the form of the test
+//@ assert before call (*BlockChain).reorg: [reorg-from-current-head] a1 == unbox(bc.currentBlock.v, *types.Block) && a2 == block
+//@ assert before call (*BlockChain).insert: [extends-head-or-reorged] c11Reorged == block ||
+//@        c11ParentHash(block) == c11Hash(unbox(bc.currentBlock.v, *types.Block))
 //@ assert before call (*BlockChain).insert: [block-and-state-before-head] a1 == block && c11Written == block && c11StateCommitted
 //@ assert before call (*BlockChain).insert: [state-durable-before-head] !c11TrieFail
 //@ assert before call (*BlockChain).insert: [lookups-and-receipts-before-head] c11Lookups == block && c11BatchOK
@@ -262,7 +272,7 @@ package core
 //@ requires [nonnil] bc != nil
 //@ requires [nonnil-blocks] forall k: int :: { chain[k] } 0 <= k && k < len(chain) ==> chain[k] != nil && chain[k].header != nil && chain[k].header.Number != nil
 //@ modifies all, c11VersionOK, c11SideOK, c11Seal, c11Body, c11ExecBlk, c11ExecSt, c11ExecRes, c11StateBlk, c11StateSt, c11UnknownParentState, c11Parent,
-//@          c11DBCanon, c11DBHead, c11DBHeadHeader, c11DBPuts, c11DBBody, c11DBHeader, c11Written, c11StateCommitted, c11TrieFail, c11Lookups, c11BatchOK, c11LastIns, c11LastIdx, c11NC
+//@          c11DBCanon, c11DBHead, c11DBHeadHeader, c11DBPuts, c11DBBody, c11DBHeader, c11Written, c11StateCommitted, c11TrieFail, c11Lookups, c11BatchOK, c11LastIns, c11LastIdx, c11NC, c11Reorged, c11Missing
 //@ ghost at entry: c11VersionOK := false
 //@ loop i invariant [linked-so-far] 1 <= i && c11Linked(chain, i)
 //@ ghost after call (*BlockChain).VerifyYouVersionState: c11VersionOK := ret1 == nil
@@ -281,7 +291,7 @@ package core
 //@ func (*BlockChain).insertSidechain props C11
 //@ requires [nonnil] bc != nil
 //@ modifies all, c11SideOK, c11Seal, c11Body, c11ExecBlk, c11ExecSt, c11ExecRes, c11StateBlk, c11StateSt, c11UnknownParentState, c11Parent,
-//@          c11DBCanon, c11DBHead, c11DBHeadHeader, c11DBPuts, c11DBBody, c11DBHeader, c11Written, c11StateCommitted, c11TrieFail, c11Lookups, c11BatchOK, c11LastIns, c11LastIdx, c11NC
+//@          c11DBCanon, c11DBHead, c11DBHeadHeader, c11DBPuts, c11DBBody, c11DBHeader, c11Written, c11StateCommitted, c11TrieFail, c11Lookups, c11BatchOK, c11LastIns, c11LastIdx, c11NC, c11Reorged, c11Missing
 //@ ghost at entry: c11SideOK := false
 //@ ghost after call (*BlockChain).verifyAllSideChainBlocks: c11SideOK := ret == nil
 //@ loop #2 invariant [verified] c11SideOK
@@ -316,12 +326,22 @@ package core
 // (engine_requests/C11.md §7); both possible callees are loggers (effect-free by the engine's own list).
 
 //@ ghost var c11LastIdx: int                // … and its index in newChain
+//@ ghost var c11Missing: bool               // reorg: a GetBlock of the walk-back returned nil (a stored ancestor is missing)
 //@ ghost var c11LastIns: *types.Block      // reorg: the block made head by the previous iteration of the rewrite loop (nil: none yet)
 
 //@ func (*BlockChain).reorg props C11
 //@ requires [nonnil] bc != nil && bc.hc != nil && oldBlock != nil && newBlock != nil
-//@ modifies all, c11DBCanon, c11DBHead, c11DBHeadHeader, c11DBPuts, c11LastIns, c11LastIdx, c11NC
+//@ modifies all, c11DBCanon, c11DBHead, c11DBHeadHeader, c11DBPuts, c11LastIns, c11LastIdx, c11NC, c11Missing
 //@ ghost at entry: c11LastIns := nil
+//@ ghost at entry: c11Missing := false
+//@ ghost after call (*BlockChain).GetBlock: c11Missing := c11Missing || ret == nil
+//@ loop #1 invariant [missing-iff-cursor-nil] c11Missing == (oldBlock == nil)
+//@ loop #2 invariant [missing-iff-cursor-nil] c11Missing == (newBlock == nil)
+//@ loop #3 invariant [nothing-missing] !c11Missing
+//@ loop #3 invariant [non-empty] c11Num(old(oldBlock)) < c11Num(old(newBlock)) ==> len(newChain) > 0
+//@ loop #4 invariant [nothing-missing] !c11Missing
+//@ loop #4 invariant [non-empty] c11Num(old(oldBlock)) < c11Num(old(newBlock)) ==> len(newChain) > 0
+//@ loop #5 invariant [nothing-missing] !c11Missing
 //@ ghost after call (*BlockChain).insert: c11LastIns := a1
 //@ ghost after call (*BlockChain).insert: c11LastIdx := i
 //@ loop #1 invariant [new-side-untouched] c11LastIns == nil
@@ -360,3 +380,9 @@ package core
 //@ ensures [head-is-the-new-block] result == nil ==> c11DBHead == c11Hash(old(newBlock)) || c11DBHead == old(c11DBHead)
 // an error is returned only before the first marker is moved
 //@ ensures [error-before-any-rewrite] result != nil ==> c11DBHead == old(c11DBHead) && c11DBCanon == old(c11DBCanon)
+// COMPLETENESS (safety form of "not wedged" for this function): reorg refuses only when a block of one of the two chains could not
+// be read back; in particular the "impossible reorg" shape (old chain empty: the head marker lags behind the index after a crash
+// between WriteCanonicalHash(n) and WriteHeadBlockHash(n)) is carried out, not refused
+//@ ensures [error-only-for-a-missing-block] result != nil ==> c11Missing
+//@ ensures [success-only-if-nothing-missing] result == nil ==> !c11Missing
+//@ ensures [fast-forward] !c11Missing && c11Num(old(oldBlock)) < c11Num(old(newBlock)) ==> result == nil && c11DBHead == c11Hash(old(newBlock))
